@@ -32,7 +32,7 @@ CONFIGS = {
                          ("ControllerMC_stable_sim.cfg", "sim")]},
     "C06": {"quick": [("ControllerMC_crash.cfg", "edges"), ("ControllerMC_crash3.cfg", "edges"), ("ControllerMC_fault.cfg", "edges"),
                       ("ControllerMC_crashfault.cfg", "edges"), ("ControllerMC_preferfault.cfg", "edges"),
-                      ("ControllerMC_crashfault3.cfg", "edges")],
+                      ("ControllerMC_crashfault3.cfg", "edges"), ("ControllerMC_crashlayout.cfg", "edges")],
             "thorough": [("ControllerMC_crash.cfg", "edges"), ("ControllerMC_crash3.cfg", "edges"), ("ControllerMC_fault.cfg", "edges"),
                          ("ControllerMC_preferfault.cfg", "edges"), ("ControllerMC_crashfault3.cfg", "edges"),
                          ("ControllerMC_crashfault.cfg", "edges"), ("ControllerMC_stale.cfg", "edges"),
@@ -95,6 +95,25 @@ def restart_kind(walk_obs, k):
             for u, w in api.items():
                 if u != t and set(req) & set(w["status"]):
                     return "unreconciled-request-for-recorded-address"
+    # a Service that held a (now different) record at the crash sits, at the failing observation, on an address
+    # that was recorded for another Service at the crash: the holder of a stale record moved onto it.  The step
+    # kind at which it got there is part of the name (in the first re-sync pass or by a single-service request).
+    now = walk_obs[k]["api"]
+    for u, v in api.items():
+        su = set(v["status"])
+        if not su or (u in now and set(now[u]["status"]) == su):
+            continue
+        for t, w in api.items():
+            if t == u or t not in now or not w["status"] or (w["spec"].get("reqIPs") or []):
+                continue
+            if set(now[t]["status"]) & su and set(now[t]["status"]) != set(w["status"]):
+                via = "?"
+                for r in range(c + 1, k + 1):
+                    a = walk_obs[r]["api"]
+                    if t in a and set(a[t]["status"]) & su:
+                        via = walk_obs[r]["op"]
+                        break
+                return "stale-record-holder-takes-recorded-address" + ("" if via == "PassStep" else "+via=" + via)
     return "other"
 
 
